@@ -678,6 +678,20 @@ def _do(world, st, op):
         for k in keys:
             v = md[k]
 
+            if op.get('deep'):
+                # ... as far down as containers go (first container child
+                # at every level)
+                while True:
+                    inner = [x for x in (v.values() if isinstance(v, dict)
+                                         else v if isinstance(v, list)
+                                         else ())
+                             if isinstance(x, (dict, list))]
+
+                    if not inner:
+                        break
+
+                    v = inner[0]
+
             if isinstance(v, dict):
                 v[op.get('key', 'nested')] = copy.deepcopy(
                     pyval(op.get('value')))
